@@ -229,3 +229,31 @@ func Policies(honest []spectypes.OperatorID) []*Policy {
 	}
 	return out
 }
+
+// PoliciesLimited is a fixed small library for larger committees (2^(n-1) faces are too many).
+func PoliciesLimited(honest []spectypes.OperatorID) []*Policy {
+	var out []*Policy
+	mk := func(name string, f func(i int) byte) {
+		face := map[spectypes.OperatorID]byte{}
+		for i, h := range honest {
+			face[h] = f(i)
+		}
+		out = append(out, &Policy{Name: "lim-" + name, Face: face})
+		out = append(out, &Policy{Name: "lim-" + name + "+eager+earlyRC", Face: face, Eager: true, EarlyRC: true})
+	}
+	mk("allA", func(int) byte { return 'A' })
+	mk("allB", func(int) byte { return 'B' })
+	mk("halves", func(i int) byte {
+		if i < len(honest)/2 {
+			return 'A'
+		}
+		return 'B'
+	})
+	mk("alternating", func(i int) byte { return "AB"[i%2] })
+	face := map[spectypes.OperatorID]byte{}
+	for _, h := range honest {
+		face[h] = 'B'
+	}
+	out = append(out, &Policy{Name: "lim-allB+eager+impersonate", Face: face, Eager: true, Impersonate: true})
+	return out
+}
